@@ -817,14 +817,14 @@ def run(ctx):
     rng = ctx.rng
     explore(ctx, corpus_cases(), label="corpus: ")
     explore(ctx, list(exhaustive_cases()), label="fixed family: ")
-    n = 120000 if ctx.thorough() else 12000
+    n = 400000 if ctx.thorough() else 30000
     cases = [gen_case(rng) for _ in range(n)]
     for i in range(0, len(cases), 4000):
         explore(ctx, cases[i:i + 4000])
     for c in cases[:3]:
         ctx.sample(c)
     # eager() with the default task factory on a real event loop (oracle only)
-    m = 6000 if ctx.thorough() else 600
+    m = 10000 if ctx.thorough() else 1000
     bad_seen = 0
     for _ in range(m):
         case = gen_case(rng)
